@@ -65,12 +65,13 @@ type GenOpt struct {
 	Sizes            []int  // extra sizes that must occur among *.dat / *.png files (threshold neighbourhood)
 	NoBin            bool   // no pre-existing LFS files at all (and possibly no .gitattributes)
 	Gitlink          bool
-	TagOfTag         bool // allow an annotated tag whose object is another annotated tag
-	NoNestedBinAttrs bool // do not drop an a/b/.gitattributes that tracks *.bin
-	BinUnderAB       bool // an already-tracked LFS file lives below a/b/ from the first commit on
-	MergeOnlyLFS     bool // every merge commit adds a fresh LFS file that the next commit deletes again
-	NoEvilMerge      bool // merge commits carry no changes of their own
-	AvoidSize        int  // no generated file has exactly this size (keeps the --above boundary out of unrelated cases)
+	TagOfTag         bool       // allow an annotated tag whose object is another annotated tag
+	NoNestedBinAttrs bool       // do not drop an a/b/.gitattributes that tracks *.bin
+	BinUnderAB       bool       // an already-tracked LFS file lives below a/b/ from the first commit on
+	MergeOnlyLFS     bool       // every merge commit adds a fresh LFS file that the next commit deletes again
+	NoEvilMerge      bool       // merge commits carry no changes of their own
+	AvoidSize        int        // no generated file has exactly this size (keeps the --above boundary out of unrelated cases)
+	Midway           *MidwayOpt `json:",omitempty"` // "LFS adopted midway" history (midway.go) instead of the general generator
 }
 
 type Gen struct {
@@ -125,7 +126,11 @@ func NewGen(env *sbx.Env, name string, seed int64, opt GenOpt) *Gen {
 	g.sizesLeft = append([]int(nil), opt.Sizes...)
 	g.exoticAt = 1 + g.r.Intn(g.opt.Commits-1)
 	g.attrFlip = 2 + g.r.Intn(3)
-	g.build()
+	if opt.Midway != nil {
+		g.buildMidway()
+	} else {
+		g.build()
+	}
 	return g
 }
 
